@@ -15,6 +15,10 @@ from mir import callee
 from common import select_info
 
 TAKES = {"std::mem::take", "std::mem::replace", "std::option::Option::take", "std::option::Option::replace"}
+PASS_THROUGH = {"std::option::Option::unwrap", "std::option::Option::expect", "std::option::Option::unwrap_or_default",
+                "std::option::Option::unwrap_or", "std::result::Result::unwrap", "std::result::Result::expect",
+                "std::ops::Try::branch", "std::option::Option::ok_or", "std::option::Option::ok_or_else",
+                "std::convert::Into::into", "std::convert::From::from", "std::result::Result::ok"}
 EXTRA = ("chmux::receiver::Receiver::recv_any", "chmux::receiver::Receiver::recv_chunk", "chmux::receiver::Receiver::recv",
          "rch::base::receiver::Receiver::recv", "rch::mpsc::receiver::Receiver::recv", "rch::mpsc::receiver::Receiver::recv_many")
 
@@ -105,6 +109,9 @@ def live_across_yield(b, take_bb):
                 else:
                     killed = True
                     break
+            elif rv["r"] == "use" and rv.get("o") and rv["o"][0] == "m" and rv["o"][1][0] == cur and len(rv["o"][1]) > 1 \
+                    and len(s["p"]) == 1 and all(isinstance(x, str) and (x.startswith("@") or x.startswith(".")) for x in rv["o"][1][1:]):
+                cur = s["p"][0]              # the payload moved out of the wrapper (`(x as Some).0`, `(cf as Continue).0`)
             elif s["p"] == [cur]:
                 killed = True                # overwritten
                 break
@@ -114,6 +121,9 @@ def live_across_yield(b, take_bb):
         if term["t"] == "drop" and term["p"] == [cur]:
             continue
         if term["t"] == "call" and any(a == ["m", [cur]] for a in term["a"]):
+            c = callee(term) or ""
+            if c in PASS_THROUGH and term.get("d") and len(term["d"]) == 1 and term.get("tgt") is not None:
+                work.append((term["tgt"], 0, term["d"][0]))     # unwrap / expect / `?` hand the same value on
             continue
         if term["t"] == "yield" or bb in ys:
             return bb
